@@ -227,7 +227,7 @@ Definition tw_pstep (fx : bool) (s : tw_state) (i : nat) (p : tw_pthread) : opti
   match tw_pt_pc p with
   | TwPStart =>
     if Nat.eqb i 0 || tw_opened s then
-      fin (tw_begin i (tw_log (TwEvB t) (if Nat.eqb i 0 then tw_set_opened s true else s)) (tw_pt_calls p) 0)
+      fin (tw_begin i (tw_log (TwEvB t) (if Nat.eqb i 0 then tw_set_opened s true else s)) (tw_pt_calls p) (tw_pt_idx p))
     else None
   | TwPHJoin =>
     if tw_others_done s i then
@@ -428,7 +428,7 @@ Definition tw_cdone (s : tw_state) : bool :=
   | TwCUnlockP, Some _ => true | TwCLockM, Some _ => true | _, _ => false
   end.
 Definition tw_unprocessed (s : tw_state) : list msg :=
-  if tw_cdone s then tl (abs (tw_q s)) else abs (tw_q s).
+  if tw_cdone s then tl (mrb_abs (tw_q s)) else mrb_abs (tw_q s).
 
 (* configurations the theorems are about: a queue that can hold the 40-byte FLUSH/CLOSE messages
    (jls_mrb_alloc refuses sizes above capacity - 8), capacity at most 2^31 (C08) *)
@@ -442,11 +442,11 @@ Definition tw_hang_prog : list (list tw_call) :=
 Definition tw_hang_sched : list tw_dec :=
   map TwDStep (repeat (TwTProd 0) 14) ++ [TwDTick 5001] ++ [TwDStep (TwTProd 0)] ++ map TwDStep (repeat TwTCons 15).
 
-(* ---- a complete run (example for the theorem hypotheses): capacity 128, producer 0 = [flush; user_data 60; close],
+(* ---- a complete run (example for the theorem hypotheses): capacity 128, producer 0 = [flush; user_data 60; flush; close],
    producer 1 = [omit]; every thread runs to its next blocking point in turn ---- *)
 Definition tw_ex_prog : list (list tw_call) :=
-  [[TwCFlush; TwCSend TwMkUser (repeat 7 59); TwCClose]; [TwCSend TwMkOmit (repeat 0 39)]].
+  [[TwCFlush; TwCSend TwMkUser (repeat 7 59); TwCFlush; TwCClose]; [TwCSend TwMkOmit (repeat 0 39)]].
 Definition tw_ex_sched : list tw_dec :=
   let a := TwDStep (TwTProd 0) in let b := TwDStep (TwTProd 1) in let c := TwDStep TwTCons in
-  repeat a 9 ++ repeat c 11 ++ repeat b 6 ++ repeat c 10 ++ [TwDTick 10] ++ repeat a 10 ++ repeat c 10 ++
-  [TwDTick 10] ++ repeat a 6 ++ repeat c 8 ++ [a].
+  repeat a 9 ++ repeat c 11 ++ repeat b 6 ++ repeat c 10 ++ [TwDTick 10] ++ repeat a 11 ++ repeat c 10 ++
+  [TwDTick 10] ++ repeat a 7 ++ repeat c 10 ++ [TwDTick 10] ++ repeat a 7 ++ repeat c 8 ++ [a].
